@@ -121,6 +121,22 @@ pub fn decode_strings(ctx: &Ctx, rng: &mut impl RngCore, nvalid: usize, nrand: u
         out.push((to_le(&c.f.abs(&v), 32), "field-zoo value"));
         out.push((to_le(&c.f.neg(&c.f.abs(&v)), 32), "field-zoo value"));
     }
+    // aliases s + q of *valid* encodings s that a folded word comparison confuses with s (the construction
+    // yields many aliases; those whose s is a valid encoding and that keep the top three bits clear are kept)
+    for w in [64usize, 32] {
+        let cands = crate::zoo::fold_collision_aliases(q, 32, w, rng, 600, 6000);
+        let mut kept = 0;
+        for a in cands {
+            let s = &a - q;
+            if a.bits() <= 253 && !s.bit(0) && c.decode_spec_fe(&s).is_ok() {
+                out.push((to_le(&a, 32), "fold-collision alias"));
+                kept += 1;
+                if kept >= 12 {
+                    break;
+                }
+            }
+        }
+    }
     for _ in 0..nrand {
         out.push((rand_bytes(rng, 32), "random"));
         let mut v = rand_bytes(rng, 32);
